@@ -27,7 +27,12 @@ def result_sig(res):
     out = {}
     for name, d in res["datasets"].items():
         comps = sorted(range(len(d["comps"])), key=lambda i: d["comps"][i][0])
-        rows = sorted(tuple(repr(r[i]) for i in comps) for r in d["rows"])
+        if all(len(r) == len(d["comps"]) for r in d["rows"]):
+            rows = sorted(tuple(repr(r[i]) for i in comps) for r in d["rows"])
+        else:
+            # returned data without one column per declared component (a structure-conformance defect, C10's business):
+            # compare the datapoints as multisets of values so that the signature stays independent of row and column order
+            rows = sorted(tuple(sorted(repr(v) for v in r)) for r in d["rows"])
         out[name] = (tuple(d["comps"][i][0] for i in comps), tuple(rows))
     return ("OK", tuple(sorted(out.items())), tuple(sorted((k, repr(v)) for k, v in res["scalars"].items())))
 
